@@ -161,7 +161,7 @@ def chain_cases(chk, count, how1s, how2s):
 			"key2": rng.choice(["id", "cust"]), "key_mode2": rng.choice(["name", "vector"])}, "chain")
 
 
-RUNNERS = {"special_keys": c09.run_special_keys, "label_accessor": c09.run_label_accessor, "repeated_key_column": c09.run_repeated_key_column, "empty_chain": c09.run_empty_chain, "self_join": c09.run_self_join, "derived_right": c09.run_derived_right, "join": run_join, "exhaustive": c09.run_exhaustive, "history": run_history, "relations": run_relations, "unmatched_order": run_unmatched_order, "chain": run_chain}
+RUNNERS = {"crossed_and_kept": c09.run_crossed_and_kept, "special_keys": c09.run_special_keys, "label_accessor": c09.run_label_accessor, "repeated_key_column": c09.run_repeated_key_column, "empty_chain": c09.run_empty_chain, "self_join": c09.run_self_join, "derived_right": c09.run_derived_right, "join": run_join, "exhaustive": c09.run_exhaustive, "history": run_history, "relations": run_relations, "unmatched_order": run_unmatched_order, "chain": run_chain}
 RUNNERS["recompute"] = recompute.runner("C10")
 
 
@@ -200,6 +200,7 @@ def run(chk):
 	chain_cases(chk, 150 if chk.quick() else 1000, ["full", "full", "left", "inner"], ["left", "full", "inner"])
 	c09.label_cases(chk, ["left", "full"])
 	c09.special_cases(chk, ["left", "full"], 4 if chk.quick() else 25)
+	c09.crossed_kept_cases(chk, ["left", "full"], 6 if chk.quick() else 40)
 	# relations: exhaustive small keys + sampled
 	idx = 0
 	for lk in c09.key_seqs():
